@@ -354,6 +354,29 @@ func ruleHist(c *Ctx) []*Ob {
 			o.add(fn, "store filePos", c.instrPos(a.Instr), okw, why)
 		}
 	}
+	// (2b) a footer loaded from disk knows its own position (it becomes the store's footer after open,
+	// and the next round's back-link is taken from its filePos)
+	scan := c.Fn("ScanFooter")
+	nlit := 0
+	eachInstr(scan, func(i ssa.Instruction) {
+		a, ok := i.(*ssa.Alloc)
+		if !ok || typeName(a.Type()) != "Footer" {
+			return
+		}
+		if _, isStruct := a.Type().Underlying().(*types.Pointer).Elem().Underlying().(*types.Struct); !isStruct {
+			return
+		}
+		nlit++
+		set := allocFieldStored(a, fPos)
+		why := "the footer read from disk records the position it was found at"
+		if !set {
+			why = "the footer read from disk does not record its position: after a reopen the first new round (or a revert) writes PrevFooterOffset 0 and every earlier round becomes unreachable through SnapshotPrevious"
+		}
+		o.add("ScanFooter", "Footer literal: filePos", c.instrPos(a), set, why)
+	})
+	if nlit == 0 {
+		o.add("ScanFooter", "Footer literal: filePos", c.pos(scan.Pos()), false, "anchor lost: ScanFooter builds no Footer")
+	}
 	// (3) publishers that append to the current file must link
 	for _, pn := range []string{"(*Store).persist", "(*Store).snapshotRevert"} {
 		f := c.Fn(pn)
